@@ -62,6 +62,7 @@ type selfExplorer struct {
 	undec   map[string]bool
 	stats   *ExploreStats
 	firstPop, lastCand int
+	noNote  bool // do not register pushed frames as pop candidates (the caller registers tagged frames itself)
 }
 
 const maxLag = 6
@@ -116,7 +117,7 @@ func (ex *selfExplorer) zStep(in *Interp, z *State, b int, pr *selfRes) (next []
 				continue
 			}
 			for _, pu := range o.Pushes {
-				if st, ok := o.Next.stacks[pu.Field]; ok && !st.Empty {
+				if st, ok := o.Next.stacks[pu.Field]; ok && !st.Empty && !ex.noNote {
 					ex.m.noteBelow(pu.Field, st)
 				}
 			}
